@@ -612,6 +612,63 @@ def r6(F, R):
 
 
 
+def r9(F, R):
+    R.rule("C15-R9", "the arrays are as long as the phase they hold: every create_arrays call of the Zarr backends whose group name contains `warmup` is given "
+                     "hint_num_tune() as its draw extent, every other one hint_num_draws() - zarrs accepts chunk writes beyond the declared shape, so a "
+                     "too short array does not fail, it hides the draws beyond its shape from every reader (read off the source-level tree: in the async "
+                     "backend the values live in the coroutine state)")
+    n = 0
+    for b in sorted(F.bodies.values(), key=lambda x: x.path):
+        if not (b.path.startswith(("storage::zarr", "<storage::zarr")) and b.path.endswith("::new_trace")) or not b.hir:
+            continue
+        lets = {}
+        for x in hir_walk(b.hir["value"]):
+            if x.get("k") == "Let" and x["pat"].get("k") == "Binding" and x.get("init") is not None:
+                lets[x["pat"]["id"]] = x["init"]
+        for x in hir_walk(b.hir["value"]):
+            if x.get("k") != "Call" or not isinstance(x.get("f"), dict) or not str((x["f"].get("res") or {}).get("def", "")).split("::")[-1].startswith("create_arrays"):
+                continue
+            args = x.get("args") or []
+            if len(args) < 6:
+                continue
+            n += 1
+            site = "%s @%s" % (b.path, loc(x["span"]))
+            def lit_text(l):
+                v = str(l.get("v"))
+                if v.startswith("ByteStr(["):       # format_args! template: the literal pieces as bytes
+                    try:
+                        return bytes(int(t_) for t_ in v[len("ByteStr(["):v.index("]")].split(",") if t_.strip()).decode("latin-1")
+                    except ValueError:
+                        return v
+                return v
+            names = [lit_text(y["lit"]) for y in hir_walk(args[1]) if y.get("k") == "Lit"]
+            names = [c for c in names if "posterior" in c or "sample_stats" in c]
+            key = "%s:create_arrays#%d" % ("async" if "async" in b.path else "sync", n)
+            if not names:
+                R.bad("C15-R9", key + ":group", site, "cannot read the group name of this create_arrays call")
+                continue
+            warm = any("warmup" in c for c in names)
+            exts = []
+            for a_ in args:
+                e = K.peel(a_)
+                lid = K.local_id(e)
+                src = lets.get(lid) if lid is not None else e
+                if src is None:
+                    continue
+                ms = {y.get("method") for y in hir_walk(src) if y.get("k") == "MethodCall"}
+                if ms & {"hint_num_tune", "hint_num_draws"}:
+                    exts.append(sorted(ms & {"hint_num_tune", "hint_num_draws"}))
+            want = "hint_num_tune" if warm else "hint_num_draws"
+            if len(exts) == 1 and exts[0] == [want]:
+                R.ok("C15-R9", key, site, "%s arrays (%s) are %s() long" % ("warm-up" if warm else "sampling", names[0][:40], want))
+            else:
+                R.bad("C15-R9", key, site, "%s arrays (%s) are created with extent %s, expected %s(): draws recorded beyond that length are invisible to readers" % (
+                    "warm-up" if warm else "sampling", names[0][:40], exts, want))
+    if n == 0:
+        R.missing("C15-R9", "create_arrays calls in the Zarr new_trace functions")
+    R.floor("C15-R9", 8)
+
+
 def run(F, R, config=None):
     feats = C10.features(F)
     if "zarr" not in feats:
@@ -625,6 +682,15 @@ def run(F, R, config=None):
     r4(F, R)
     r5(F, R)
     r6(F, R)
+    r9(F, R)
+    # a chunk write whose failure is dropped leaves fill values where recorded draws should be (C13-R6 analysis restricted to the backends)
+    from . import c13
+
+    def _storage_only(sub):
+        c13.r6(F, sub)
+        sub.obligations = [o for o in sub.obligations if "storage::zarr" in o["site"] or o["ok"]]
+    K.borrow_rule(R, _storage_only, "C15-R8", "no Zarr backend drops the Result of a chunk write without looking at it (C13-R6 analysis): a failed write that is reaped "
+                  "silently makes flush() / finalize() report success for draws that are not in the store", only_rules={"C13-R6"})
     # "data flushed earlier is never corrupted by finalisation": the event arrays of the phase a chain is in are not trimmed away (C14-R13 analysis)
     from . import c14
     K.borrow_rule(R, lambda sub: c14.r13(F, sub), "C15-R7", "finalisation keeps the events of the phase the chain ended in: the (warm-up, sampling) event counts a Zarr "
@@ -634,6 +700,6 @@ def run(F, R, config=None):
     R.assume("chunk arithmetic for all sizes and store contents after a crash are value questions, not decided")
 
 
-FEATURE_RULES = {"C15-R1": "zarr", "C15-R2": "zarr", "C15-R3": "zarr", "C15-R4": "zarr", "C15-R5": "zarr", "C15-R6": "zarr", "C15-R7": "zarr"}
+FEATURE_RULES = {"C15-R1": "zarr", "C15-R2": "zarr", "C15-R3": "zarr", "C15-R4": "zarr", "C15-R5": "zarr", "C15-R6": "zarr", "C15-R7": "zarr", "C15-R8": "zarr", "C15-R9": "zarr"}
 CONFIGS = ["all", "zarr"]
 SELFTEST = True
